@@ -335,6 +335,39 @@ def run(case):
                 Fq = job.res.x.extract()[0]
                 c.close(sub + "/F", "uniform deformation gradient", Fq, np.broadcast_to(np.diag(l)[:, :, None, None], Fq.shape), scale=1.0)
                 finals.setdefault(lam, []).append(u.copy())
+        # cyclic histories (loading, partial unloading, back to exactly zero, into compression, two steps): every recorded
+        # curve point is the analytic point of ITS substep (elastic materials: no path dependence)
+        if kind == "uniaxial":
+            for hist, split in (([0.15, 0.3, 0.15, 0.0, -0.1], None), ([0.2, 0.0, 0.2], 2), ([-0.1, 0.0, 0.0, 0.25], 1)):
+                mesh, region, twin = build(fam, "distorted", seed, n=n)
+                Fcls = fem.Field if d == 3 else fem.FieldPlaneStrain
+                field = fem.FieldContainer([Fcls(region, dim=d)])
+                body = fem.SolidBody(um, field)
+                bounds, lc = fem.dof.uniaxial(field, clamped=False, move=0.0, axis=0, sym=True)
+                parts = [hist] if split is None else [hist[:split], hist[split:]]
+                steps = [fem.Step([body], ramp={bounds["move"]: list(pt)}, boundaries=bounds) for pt in parts]
+                seen = []
+
+                def cb(j, i, substep, seen=seen):
+                    seen.append(substep.x[0].values.copy())
+
+                job = fem.CharacteristicCurve(steps=steps, boundary=bounds["move"], callback=cb)
+                job.evaluate(verbose=False)
+                c.trans += len(hist)
+                sub = f"cyclic={hist}/split={split}"
+                if len(job.x) != len(hist) or len(job.y) != len(hist) or len(seen) != len(hist):
+                    c.bad(sub + "/points", "one curve point per substep", [len(job.x), len(job.y), len(seen)], len(hist))
+                    continue
+                c.close(sub + "/x", "curve abscissa = prescribed displacement of every substep", np.array(job.x)[:, 0], np.array(hist), scale=1.0, tol=1e-14)
+                for i, uv in enumerate(hist):
+                    lam_i = 1.0 + uv
+                    l = solve_free(W, {0: lam_i}, [1, 2]) if d == 3 else solve_free(W, {0: lam_i, 2: 1.0}, [1])
+                    P11 = dW(W, l, 0)
+                    c.close(sub + f"/force{i}", "recorded force of substep i = analytic stress at the i-th ramp value x area", np.array(job.y)[i][0], P11, scale=max(abs(P11), 0.1))
+                    uex = mesh.points @ (np.diag(l[:d]) - np.eye(d)).T
+                    if fam.endswith("mini"):
+                        uex[np.unique(mesh.cells[:, -1])] = 0
+                    c.close(sub + f"/displacement{i}", "displacement field of substep i = homogeneous deformation of the i-th ramp value", seen[i], uex, scale=max(np.abs(uex).max(), 0.1))  # 0.1: amplitude of the history (the zero state carries the Newton tolerance only)
         for lam, us in finals.items():
             for k in range(1, len(us)):
                 c.close(f"lam={lam}/subdivision-independence/{k}", "final state independent of the ramp subdivision", us[k], us[0], scale=max(np.abs(us[0]).max(), 1e-3))
